@@ -27,6 +27,8 @@ echo "== run checks against /repo with the change"
 cd /verif
 git -C /repo diff --quiet || { echo "/repo not clean"; exit 2; }
 git -C /repo apply $out/patch.diff || { echo "patch does not apply to /repo"; exit 2; }
+# evidence written while the change is applied is not evidence about the unchanged tree: put the old files back afterwards
+rm -rf /tmp/_ev_$name; cp -r evidence /tmp/_ev_$name
 res=""
 for p in "$@"; do
   o=$(./check $p quick 2>&1); rc=$?
@@ -36,4 +38,5 @@ for p in "$@"; do
 done
 git -C /repo checkout -- .
 git -C /repo status --short | head -3
+rm -rf evidence; mv /tmp/_ev_$name evidence
 echo "{\"suite_with_change\":\"$suite\",\"demo_with_change\":\"$with\",\"demo_without_change\":\"$without\",\"checks\":[${res%,}]}" > $out/run.json
